@@ -142,6 +142,12 @@ def stepC14 (s : S14) (op : String) (got : String) : StepResult S14 :=
         (match prev with
          | some p => if p.2 != got then [⟨"hash-of-equal-names", "h", s!"Hash({a}) gave {p.2} and then {got}"⟩] else []
          | none => []) }
+  | ["hc", _a, _b, _c] =>
+    -- concurrent hashing of private copies: the hash of a name is a function of the name alone
+    { st := s, expected := some "stable", cov := ["hash-concurrent"],
+      spec := crashSpec "Hash (concurrent)" got ++
+        (if !isCrash got && got != "stable" then
+          [⟨"hash-of-equal-names", "hc", s!"hashing the same names from several goroutines gave different values than sequentially: {got}"⟩] else []) }
   | ["ph", _a] =>
     -- output "<PrefixHash() list> <Hash() of each prefix>" : must agree position by position
     let parts := got.splitOn " "
